@@ -140,6 +140,8 @@ structure Global where
 structure Prog where
   mode : String
   types : Array TyDesc
+  /-- canonical key of each type (equal keys ⇔ identical types), as computed by the dumper -/
+  tkeys : Array String := #[]
   globals : Array Global
   fns : Array Fn
   /-- (interface tid, concrete tid, implements) -/
